@@ -427,7 +427,7 @@ fn dec(node: &SNode, env: &Env, cur: &mut Cur, depth: usize) -> Result<V, DecErr
                     break;
                 }
                 for _ in 0..n {
-                    if out.len() > 1_000_000 {
+                    if out.len() > 200_000 {
                         return Err(DecErr::Bad("reference decoder item cap".into()));
                     }
                     out.push(dec(items, env, cur, depth + 1)?);
